@@ -4713,6 +4713,9 @@ class ResponseFuture(object):
         self._event.clear()
         self._final_result = _NOT_SET
         self._final_exception = None
+        # each page fetch gets its own timeout: forget the (cancelled) timer of the previous page
+        self._timer = None
+        self._start_time = time.time()
         self._start_timer()
         self.send_request()
 
